@@ -106,8 +106,12 @@ def gen_definition(rng, fam):
             return L.e("completed()")
         if r < 0.85:
             return L.eq("result()", "'a'")
-        if r < 0.93:
+        if r < 0.9:
             return L.eq("ctx().x", "0")
+        if r < 0.96:
+            # conditions whose value is not a boolean: truthiness decides ([] / "" / 0 / null are false)
+            return rng.choice([L.ctx("lst"), L.e("result()"), L.ctx("x"), L.ctx("n"), L.e("ctx().get('z')"),
+                               L.ctx("dv")])
         return L.e("succeeded() and ctx().n < 5")
 
     for i, t in enumerate(names):
